@@ -685,7 +685,11 @@ func endToEndWith(inspector bool) {
 	}
 	invalid := []string{`{"model":"m1","messages":[{"role":"user","content":"hi"}]}`, `{"model":"","max_tokens":5,"messages":[{"role":"user","content":"hi"}]}`,
 		`{"model":"m1","max_tokens":5,"messages":[]}`, `{"model":"m1","max_tokens":5,"temperature":3,"messages":[{"role":"user","content":"hi"}]}`, `not json at all`,
-		`{"model":"m1","max_tokens":5,"top_p":2,"messages":[{"role":"user","content":"hi"}]}`, `{"model":"m1","max_tokens":5,"top_k":-4,"messages":[{"role":"user","content":"hi"}]}`}
+		`{"model":"m1","max_tokens":5,"top_p":2,"messages":[{"role":"user","content":"hi"}]}`, `{"model":"m1","max_tokens":5,"top_k":-4,"messages":[{"role":"user","content":"hi"}]}`,
+		// a body that is not one JSON document: a valid request followed by something else
+		`{"model":"m1","max_tokens":5,"messages":[{"role":"user","content":"hi"}]} and then some`,
+		`{"model":"m1","max_tokens":5,"messages":[{"role":"user","content":"hi"}]}{"model":"m2","max_tokens":5,"messages":[{"role":"user","content":"other"}]}`,
+		`{"model":"m1","max_tokens":5,"messages":[{"role":"user","content":"hi"}]}]`}
 	for _, raw := range invalid {
 		be.Reset()
 		r := stack.Do(o.Addr, &stack.Req{Method: "POST", Target: "/olla/anthropic/v1/messages", Body: []byte(raw), Headers: [][2]string{{"Content-Type", "application/json"}}, Timeout: 5 * time.Second})
